@@ -47,6 +47,9 @@ for kind,(st,vt,mem) in T.items():
     a.append('    ensures @offers-every-table-member '+' && '.join(f'haskey(result, "{n}")' for n in names)+'\n')
     if kind=='Object':
         a.append('    loop 1 invariant fresh(fields) && '+' && '.join(f'haskey(fields, "{n}")' for n in names)+'\n')
+    if kind=='List':
+        a.append('    requires self.Inner != nil\n')
+        a.append('    ensures @sort-only-for-sortable-elements haskey(result, "sort") <==> (self.Inner.Kind() == IntTypeKind || self.Inner.Kind() == FloatTypeKind || self.Inner.Kind() == StringTypeKind)\n')
     a.append('@*/\n\n')
 splice('/repo/homescript/analyzer/ast/zz_contracts_verif.go',''.join(a))
 
